@@ -27,9 +27,15 @@ ap.add_argument("--seed", type=int, default=1)
 ap.add_argument("--repo", default="/repo")
 a = ap.parse_args()
 env = dict(os.environ, GOFLAGS="-mod=mod", GOPROXY="off", GOSUMDB="off", GOTOOLCHAIN="local", GOWORK="off")
+if os.environ.get("MUT_PRIVATE_GOCACHE"):
+    # thousands of mutated packages otherwise pile up in the shared build cache; a private cache (filled once,
+    # ~1 min) is removed together with the work directory
+    env["GOCACHE"] = "__WORK__/gocache"
 def sh(cmd, **kw):
     return subprocess.run(cmd, shell=True, stdout=subprocess.PIPE, stderr=subprocess.STDOUT, text=True, **kw)
 work = tempfile.mkdtemp(prefix="neat_mut_")
+if env.get("GOCACHE") == "__WORK__/gocache":
+    env["GOCACHE"] = os.path.join(work, "gocache")
 try:
     b = sh(f"cd {VERIF}/checker && go build -o {work}/mutgen ./cmd/mutgen && go build -o {work}/neatcheck ./cmd/neatcheck", env=env)
     if b.returncode != 0:
